@@ -23,6 +23,16 @@ type MsgDef struct {
 	Name   string
 	ID     uint32
 	Fields []FieldDef // declaration order
+	// StructIndex[i] is the index of the Go struct field that holds Fields[i]; nil = the struct
+	// declares its fields in the same order (definitions derived from the struct itself)
+	StructIndex []int
+}
+
+func (d *MsgDef) structField(i int) int {
+	if d.StructIndex != nil {
+		return d.StructIndex[i]
+	}
+	return i
 }
 
 // TypeSize gives the wire size of a primitive type.
@@ -355,7 +365,7 @@ func ValsFromStruct(d *MsgDef, v reflect.Value) []Val {
 	}
 	out := make([]Val, len(d.Fields))
 	for i := range d.Fields {
-		fv := v.Field(i)
+		fv := v.Field(d.structField(i))
 		if fv.Kind() == reflect.String {
 			out[i] = Val{IsS: true, Str: fv.String()}
 			continue
@@ -407,7 +417,7 @@ func SetStruct(d *MsgDef, v reflect.Value, vals []Val) {
 		v = v.Elem()
 	}
 	for i := range d.Fields {
-		fv := v.Field(i)
+		fv := v.Field(d.structField(i))
 		if fv.Kind() == reflect.String {
 			fv.SetString(vals[i].Str)
 			continue
